@@ -13,7 +13,7 @@ VARIABLE l
 TraceRecs == ndJsonDeserialize("trace.ndjson")
 Decls == ndJsonDeserialize("decls.ndjson")
 
-Props == {"C01", "C02", "C03", "C04", "C06", "C07", "C08", "C09", "C10", "C11", "DRIFT"}
+Props == {"C01", "C02", "C03", "C04", "C06", "C07", "C08", "C09", "C10", "C11", "C15", "DRIFT"}
 
 \* a scenario may start with a first ParseArgs on the same parser (prelude); the judged call is the second one
 Final(rec, argv) ==
@@ -129,6 +129,7 @@ InDom02(rec, f, o) ==
 JudgeWith(rec, f, o) ==
      [C01 |-> J01(f, o), C02 |-> J02(rec, f, o), C03 |-> J03(f, o), C04 |-> J04(f, o, rec), C06 |-> J06(f, o), C07 |-> J07(f, o),
       C08 |-> J08(f, o), C09 |-> J09(f, o), C10 |-> J10(f, o), C11 |-> J11(f, o), DRIFT |-> FullEq(f, o),
+      C15 |-> Crashed(o) \/ o.distinct <= 1,           \* repeated runs on fresh parsers gave one observation (values, error message bytes, events)
       \* how often each property's antecedent was met (non-vacuity figures for the evidence)
       grey |-> B(f.grey), ok |-> B(SpecOk(f)), steps |-> f.steps,
       d01 |-> B(Dom(f, o) /\ SpecOk(f) /\ f.occ # <<>>),
